@@ -954,8 +954,10 @@ static cat_status search_command(struct cat_object *self)
         if (++self->index >= self->commands_num) {
                 if (self->cmd == NULL) {
                         self->state = (self->current_char == '\n') ? CAT_STATE_COMMAND_NOT_FOUND : CAT_STATE_ERROR;
+                } else if (self->partial_cntr == 1) {
+                        self->state = CAT_STATE_COMMAND_FOUND;
                 } else {
-                        self->state = (self->partial_cntr == 1) ? CAT_STATE_COMMAND_FOUND : CAT_STATE_COMMAND_NOT_FOUND;
+                        self->state = (self->current_char == '\n') ? CAT_STATE_COMMAND_NOT_FOUND : CAT_STATE_ERROR;
                 }
         }
 
